@@ -546,7 +546,8 @@ func init() {
 	// ---- JSON decoding into a Go value: whatever the bytes are, the decoder leaves SOME well-typed value in the target
 	// (and returns nil or an error). Modelled as: every field of the target struct (or the target local itself) gets
 	// an arbitrary value of its type; decoded pointers are nil or freshly allocated objects, whose own contents are
-	// arbitrary (nothing is known about memory above the old allocation watermark). Nothing else changes. This covers
+	// arbitrary (nothing is known about memory above the old allocation watermark), except that decoded numbers are finite
+	// (JSON has no NaN/Inf). Nothing else changes. This covers
 	// every input byte string.
 	unmarshal := func(argIdx int) func(u *Unit, st *State, x *ast.CallExpr, recv *Val, fn *types.Func) *Val {
 		return func(u *Unit, st *State, x *ast.CallExpr, recv *Val, fn *types.Func) *Val {
@@ -565,10 +566,17 @@ func init() {
 			decoded := func(t types.Type, hint string) *Val {
 				nv := u.freshVal(st, t, hint)
 				switch kindOf(t) {
+				case kFloat:
+					// JSON numbers are finite (the decoder rejects anything else)
+					st.assumeFact(tAnd(tNot(app("fp.isNaN", nv.S)), tNot(app("fp.isInfinite", nv.S))))
 				case kRef:
 					if !isIface(t) {
 						// a decoded pointer / map is nil or an object the decoder has just allocated
 						st.assumeFact(tOr(tEq(nv.S, "0"), tAnd(app(">", nv.S, wmOld), app("<=", nv.S, st.wm))))
+						if pt, isPtr := types.Unalias(t).Underlying().(*types.Pointer); isPtr && kindOf(pt.Elem()) == kFloat {
+							pv := u.loadThrough(st, nv)
+							st.assumeFact(tImp(app("distinct", nv.S, "0"), tAnd(tNot(app("fp.isNaN", pv.S)), tNot(app("fp.isInfinite", pv.S)))))
+						}
 					}
 				case kSlice:
 					if et := elemType(t); et != nil && kindOf(et) == kRef && !isIface(et) && nv.Arr != "" {
